@@ -145,6 +145,17 @@ def run(ctx):
         sp['opts']['price_frame'] = True
         sp['opts']['ops'] = [{'op': 'S', 'g': gi, 'p': 0, 'size': '3h'} for gi in [0, len(gs) - 1, 0] + list(range(1, len(gs) - 1))]
         specs.append(sp)
+    # structured assets with a life time of their own wrapping assets with life times: set up in one zone, then in another
+    stz = gen.gen_many(ctx.seed, n // 6, dict(CFG, tzs=['CET'], freqs=['h'], p_struct_window=1.0, p_window_inner=0.9, p_coarse=0.0, p_periodic=0.0,
+                                              kinds={'StructuredAsset': 4, 'SimpleContract': 1}), 'c10st_')
+    for sp in stz:
+        rng = random.Random(str(sp['seed']) + '/ops')
+        gs = grid_variants(sp, rng)
+        sp['opts']['grids'] = gs
+        other = [i for i, g in enumerate(gs) if g.get('tz') != sp['grid'].get('tz')]
+        if other:
+            sp['opts']['ops'] = [{'op': 'P', 'g': 0, 'p': 0}, {'op': 'P', 'g': other[0], 'p': 0}, {'op': 'P', 'g': 0, 'p': 1}, {'op': 'A', 'k': 0, 'g': other[0], 'p': 0}]
+            specs.append(sp)
     # linked assets (times back / forward given in the main time unit) on grids whose step is not the main time unit, built repeatedly
     from props.C09 import linked_specs
     for fq in ('15min', '30min'):
